@@ -80,7 +80,15 @@ const DIR = '/p/c11'
 // base names of the rewritten file ('' = the body's own short name); legal names that are awkward for
 // text-based frame handling
 const FILE_NAMES = ['', 'with space', 'paren(1)', 'dollar$&amp', 'dollar$$twice', "dollar$'quote", 'dollar$`tick', 'ñ€ü', 'colon:3:4', 'at x (y', 'dots.min.v2', '-dash', 'file:', '%41']
-function mkFile (name, body, layout, chained) {
+// how the pre-transpilation sources are named in the original map (chained files)
+const SRC_KINDS = {
+  relative: (n) => ({ names: [n + '.ts', n + '_part2.ts'], paths: [path.join(DIR, n + '.ts'), path.join(DIR, n + '_part2.ts')] }),
+  updir: (n) => ({ names: ['../src/' + n + '.ts', './' + n + '_part2.ts'], paths: [path.join('/p/src', n + '.ts'), path.join(DIR, n + '_part2.ts')] }),
+  absolute: (n) => ({ names: ['/abs/src/' + n + '.ts', '/abs/src/' + n + '_part2.ts'], paths: ['/abs/src/' + n + '.ts', '/abs/src/' + n + '_part2.ts'] }),
+  source_root: (n) => ({ names: [n + '.ts', n + '_part2.ts'], sourceRoot: '../root/', paths: [path.join('/p/root', n + '.ts'), path.join('/p/root', n + '_part2.ts')] }),
+  source_root_abs: (n) => ({ names: [n + '.ts', n + '_part2.ts'], sourceRoot: '/abs/root', paths: ['/abs/root/' + n + '.ts', '/abs/root/' + n + '_part2.ts'] })
+}
+function mkFile (name, body, layout, chained, srcKind) {
   let lines = LAYOUTS[layout](body)
   const sites = {}
   lines.forEach((l, i) => { const re = /\/\*@(\w+)\*\//g; let m; while ((m = re.exec(l))) (sites[m[1]] = sites[m[1]] || []).push(i + 1) })
@@ -93,9 +101,10 @@ function mkFile (name, body, layout, chained) {
     // two original sources (a bundle): the first half of the lines comes from <name>.ts, the rest from <name>_part2.ts
     const split = Math.floor(lines.length / 2)
     const segs = lines.map((_, i) => ({ gl: i, gc: 0, src: i < split ? 0 : 1, ol: i + tsShift, oc: 0 }))
-    const M = SM.encodeMap({ sources: [name + '.ts', name + '_part2.ts'], names: [], segments: segs, file: name + '.js' })
+    const sk = SRC_KINDS[srcKind || 'relative'](name)
+    const M = SM.encodeMap({ sources: sk.names, names: [], segments: segs, file: name + '.js', sourceRoot: sk.sourceRoot })
     code += '//# sourceMappingURL=data:application/json;base64,' + b64(JSON.stringify(M)) + '\n'
-    orig = { path: path.join(DIR, name + '.ts'), path2: path.join(DIR, name + '_part2.ts'), split, shift: tsShift }
+    orig = { path: sk.paths[0], path2: sk.paths[1], split, shift: tsShift }
   }
   return { file, code, sites, orig, lineCount: lines.length }
 }
@@ -244,9 +253,9 @@ async function build (tier) {
   const leaves = []
   let stats = { states: 1, transitions: 0 }
   { // (P) single files: body x layout x chained x comments
-    const r = enumerate([{ name: 'body', symbols: ['A', 'B'], free: true }, { name: 'layout', symbols: Object.keys(LAYOUTS), free: true }, { name: 'chained', symbols: [false, true], free: true }, { name: 'comments', symbols: [false, true], free: true }, { name: 'fname', symbols: FILE_NAMES, free: true }], {})
+    const r = enumerate([{ name: 'body', symbols: ['A', 'B'], free: true }, { name: 'layout', symbols: Object.keys(LAYOUTS), free: true }, { name: 'chained', symbols: [false, true], free: true }, { name: 'comments', symbols: [false, true], free: true }, { name: 'fname', symbols: FILE_NAMES, free: true }, { name: 'src', symbols: Object.keys(SRC_KINDS), free: true }], { valid: (cur, i) => !(i >= 5 && !cur.chained && cur.src !== 'relative') })
     stats = addStats(stats, r.stats)
-    for (const l of r.leaves) leaves.push({ fam: 'file', key: ['file', l.pick.body, l.pick.layout, l.pick.chained, l.pick.comments, l.pick.fname].join('¦'), pick: l.pick })
+    for (const l of r.leaves) leaves.push({ fam: 'file', key: ['file', l.pick.body, l.pick.layout, l.pick.chained, l.pick.comments, l.pick.fname, l.pick.src].join('¦'), pick: l.pick })
   }
   { // (H) histories of rewrite events on the caching rewriter
     const h = tier === 'thorough' ? 5 : 3
@@ -266,7 +275,7 @@ async function build (tier) {
 
 function requests (leaf) {
   if (leaf.fam === 'file') {
-    const f = mkFile(leaf.pick.fname || leaf.pick.body.toLowerCase(), leaf.pick.body === 'A' ? A_BODY : B_BODY, leaf.pick.layout, leaf.pick.chained)
+    const f = mkFile(leaf.pick.fname || leaf.pick.body.toLowerCase(), leaf.pick.body === 'A' ? A_BODY : B_BODY, leaf.pick.layout, leaf.pick.chained, leaf.pick.src)
     return [{ config: Object.assign({}, C.FULL, { chainSourceMap: leaf.pick.chained, comments: leaf.pick.comments }), file: f.file, code: f.code }]
   }
   if (leaf.fam === 'history') return Array.from(new Set(leaf.hist.map((ver) => ver === 'A5' ? 'A1' : ver))).map((ver) => { const f = VERSIONS[ver](); return { config: cfgFor('c'), file: f.file, code: f.code, id: ver } })
@@ -300,7 +309,7 @@ async function check (leaf, resps, ctx) {
   const main = bridge.loadMain() // fresh module instances: the caches are part of the state
   if (leaf.fam === 'file') {
     const p = leaf.pick
-    const f = mkFile(p.fname || p.body.toLowerCase(), p.body === 'A' ? A_BODY : B_BODY, p.layout, p.chained)
+    const f = mkFile(p.fname || p.body.toLowerCase(), p.body === 'A' ? A_BODY : B_BODY, p.layout, p.chained, p.src)
     const config = Object.assign({}, C.FULL, { chainSourceMap: p.chained, comments: p.comments })
     if (resps[0].status !== 'ok' || !resps[0].content) { v('setup', 'rewrite', 'file was not rewritten: ' + resps[0].status); return res }
     bridge.provide(config, f.code, f.file, resps[0])
